@@ -110,3 +110,17 @@ impl Ast {
 }
 // `T::to_owned()` of the blanket `impl<T: Clone> ToOwned for T` (std): no postcondition assumed.
 pub assume_specification<T: Clone>[<T as std::borrow::ToOwned>::to_owned](_0: &T) -> (r: T);
+
+// ---- parsers/mod.rs: one file's preprocessing + parsing (trusted) -----------------------------------
+/// ghost: the symbol set parse_files was called with (named by the hint at the call site)
+pub uninterp spec fn given_symbols() -> Set<String>;
+/// parse_file (preprocessor + LALRPOP parser: outside this technique). PERMISSION (C06): the symbol set a
+/// file starts with is exactly the set given to parse_files -- whatever #define/#undef an earlier file ran.
+#[verifier::external_body]
+pub fn parse_file(file: &mut SliceFile, ast: &mut Ast, diagnostics: &mut Diagnostics, symbols: std::collections::HashSet<String>)
+    requires symbols@ == given_symbols(),   /*@cl C06.isolation.same_symbols|permission*/
+    ensures all_ok(old(diagnostics).0@) ==> all_ok(final(diagnostics).0@),
+{ unimplemented!() }
+/// `HashSet::clone` (std): a set with the same elements
+pub assume_specification<T: Clone, S: Clone, A: std::alloc::Allocator + Clone>[<std::collections::HashSet<T, S, A> as Clone>::clone](s: &std::collections::HashSet<T, S, A>) -> (r: std::collections::HashSet<T, S, A>)
+    ensures r@ == s@;
